@@ -69,6 +69,14 @@ static Val mk()
 	return x;
 }
 static bool sameValue(const Val & a, const Val & b) { return a.v == b.v && a.tag == b.tag; }
+// FREEDIG: the digest is NOT assumed to be a function of the stored value -- values of different source types may be stored as the same value
+// while their digests differ (int 3 and "3" in a text-holding Storage); such ids are distinct, ordered by digest, and hash differently
+#ifdef FREEDIG
+#define DIGEST_IS_FUNCTION_OF(a, b) ((void)0)
+#else
+#define DIGEST_IS_FUNCTION_OF(a, b) vf_assume(! sameValue(a, b) || fullDig(a) == fullDig(b))
+#endif
+static bool sameId(const Val & a, const Val & b) { return sameValue(a, b) && fullDig(a) == fullDig(b); }
 
 static Trace g_tr;
 struct Cb { uint32_t id; explicit Cb(uint32_t i) : id(i) {} void operator()(uint32_t a) const { g_tr.add(id, a, 0); } };
@@ -83,9 +91,7 @@ extern "C" void harness()
 {
 	Val va = mk(), vb = mk(), vc = mk();
 	// the digest is a function of the value
-	vf_assume(! sameValue(va, vb) || fullDig(va) == fullDig(vb));
-	vf_assume(! sameValue(va, vc) || fullDig(va) == fullDig(vc));
-	vf_assume(! sameValue(vb, vc) || fullDig(vb) == fullDig(vc));
+	DIGEST_IS_FUNCTION_OF(va, vb); DIGEST_IS_FUNCTION_OF(va, vc); DIGEST_IS_FUNCTION_OF(vb, vc);
 #if MAPK == 0
 	Id a(va), b(vb), c(vc);
 	bool ab = a == b, ba = b == a, bc = b == c, ac = a == c;
@@ -102,7 +108,7 @@ extern "C" void harness()
 	vf_assert(!((! lab && ! lba) && (! lbc && ! lcb)) || (! lac && ! lca), 176);   // incomparability is transitive (strict weak ordering)
 	vf_assert(! ab || std::hash<Id>()(a) == std::hash<Id>()(b), 169);   // equal ids hash equally
 #if STORAGE
-	vf_assert(ab == sameValue(va, vb), 170);                  // colliding digests stay distinct ids; equal values are equal ids
+	vf_assert(ab == sameId(va, vb), 170);                  // colliding digests stay distinct ids; equal values are equal ids
 	if(fullDig(va) == fullDig(vb) && ! sameValue(va, vb)) vf_cover(COV_COLLISION);
 #else
 	vf_assert(ab == (fullDig(va) == fullDig(vb)), 171);       // without storage: equal exactly when the digests are
@@ -126,9 +132,7 @@ extern "C" void harness()
 #endif
 	D * d = new D();
 	Val vd = mk();
-	vf_assume(! sameValue(va, vd) || fullDig(va) == fullDig(vd));
-	vf_assume(! sameValue(vb, vd) || fullDig(vb) == fullDig(vd));
-	vf_assume(! sameValue(vc, vd) || fullDig(vc) == fullDig(vd));
+	DIGEST_IS_FUNCTION_OF(va, vd); DIGEST_IS_FUNCTION_OF(vb, vd); DIGEST_IS_FUNCTION_OF(vc, vd);
 #if MAPK == 2
 	// hashed map: libstdc++ starts with 13 buckets, so every insertion/lookup of a symbolic digest forks 13 ways; two registered ids here
 	// registered through an id object (non-const lvalue) and through a raw value (converted by the dispatcher)
@@ -150,7 +154,7 @@ extern "C" void harness()
 	}
 	// exactly the listeners registered under an id equal to the dispatched one, in registration order
 #if STORAGE
-	bool e1 = sameValue(va, vd), e2 = sameValue(vb, vd), e3 = sameValue(vc, vd);
+	bool e1 = sameId(va, vd), e2 = sameId(vb, vd), e3 = sameId(vc, vd);
 #else
 	bool e1 = va.dig == vd.dig, e2 = vb.dig == vd.dig, e3 = vc.dig == vd.dig;
 #endif
